@@ -286,4 +286,41 @@ theorem build_wf (encT : α → Bytes) (encR : β → Bytes) (txs : List α) (rc
     omega
 
 
+
+
+/-- The slice handed to the item decoder is exactly the encoding of item `i` — for ANY decoder
+(full or partial). -/
+theorem sliceGet_offsets_raw {α γ : Type} (enc : α → Bytes) (dec : Bytes → Option γ) :
+    ∀ (items : List α) (pre : Bytes) (i : Nat) (h : i < items.length),
+      sliceGet dec (offsets enc pre.length items) (pre ++ concatEnc enc items) i = Res.ofOption (dec (enc items[i]))
+  | [], _, _, h => by simp at h
+  | x :: xs, pre, 0, _ => by
+    have hmid := take_drop_mid pre (enc x) (concatEnc enc xs)
+    rw [sliceGet_eq dec _ _ 0 pre.length (pre.length + (enc x).length) (by simp [offsets]) (by simp [offsets])
+      (by cases xs <;> simp [offsets, concatEnc]) (by omega) (by simp [concatEnc])]
+    simp only [concatEnc, hmid]
+    rfl
+  | x :: xs, pre, j + 1, h => by
+    have ih := sliceGet_offsets_raw enc dec xs (pre ++ enc x) j (by simpa using h)
+    simp only [offsets, concatEnc, sliceGet_cons_succ]
+    simp only [List.length_append, List.append_assoc] at ih
+    rw [ih]
+    simp
+
+theorem getTx_build_raw {α β γ : Type} (encT : α → Bytes) (encR : β → Bytes) (dec : Bytes → Option γ)
+    (txs : List α) (rcs : List β) (i : Nat) (h : i < txs.length) :
+    (Blob.build encT encR txs rcs).getTx dec i = Res.ofOption (dec (encT txs[i])) := by
+  unfold Blob.getTx
+  rw [txSection_build]
+  have := sliceGet_offsets_raw encT dec txs [] i h
+  simpa [build_eq] using this
+
+theorem getRc_build_raw {α β γ : Type} (encT : α → Bytes) (encR : β → Bytes) (dec : Bytes → Option γ)
+    (txs : List α) (rcs : List β) (i : Nat) (h : i < rcs.length) :
+    (Blob.build encT encR txs rcs).getRc dec i = Res.ofOption (dec (encR rcs[i])) := by
+  unfold Blob.getRc
+  have := sliceGet_offsets_raw encR dec rcs (concatEnc encT txs) i h
+  simpa [build_eq] using this
+
+
 end Juno.C07
